@@ -131,7 +131,10 @@ Benign == Can /\ \E k \in 1..Len(a.units), c \in {"duplicate", "foreigncid", "fo
    /\ (c = "secondwrite" => k = 1 /\ dmg = <<>>)
    /\ a' = CASE c = "duplicate" -> [a EXCEPT !.units = Append(a.units, a.units[k])]
              [] c = "reorder" -> [a EXCEPT !.units = Tail(a.units) \o <<Head(a.units)>>]
-             [] c \in {"foreigncid", "foreignhash"} -> a
+             [] c \in {"foreigncid", "foreignhash"} ->
+                  \* the block gets a NEW label that hashes to its data: a label that had been damaged before is thereby repaired
+                  [a EXCEPT !.units[k].state = IF @ \in {"cidbit", "cidswap", "cidident", "cidhash2"} THEN "ok" ELSE @,
+                            !.units[k].cid = a.units[k].tok]
              [] c = "secondwrite" -> [a EXCEPT !.clobbered = (a.wv = "bytes" /\ "BytesAliased" \in Deviations)]
    /\ dmg' = Append(dmg, [kind |-> "benign", k |-> k, c |-> c]) /\ UNCHANGED res
 
@@ -142,7 +145,8 @@ Next == DamageEntry \/ DamageFrame \/ Benign \/ DoRead
 Spec == Init /\ [][Next]_vars
 
 Done == res.phase = "read"
-Harmful == \E k \in 1..Len(dmg) : dmg[k].kind \in {"entry", "frame"}
+\* what is corrupt NOW (a later relabelling can repair a damaged label): the frame, or some entry
+Harmful == a.frame # "ok" \/ \E k \in 1..Len(a.units) : a.units[k].state # "ok"
 
 \* C17: reading what was written gives exactly the tokens added, whatever the format,
 \* the writer / reader variant and the order of the entries
